@@ -2,6 +2,7 @@ package prioh
 
 import (
 	"fmt"
+	"sync/atomic"
 	"math/rand"
 	"runtime"
 	"sort"
@@ -38,6 +39,8 @@ type contractCall struct {
 }
 
 // distinct divider calls seen by the wrapping dividers of the gated runs (v2 replay, v1 recorder), flushed by the tests
+var stuckRuns atomic.Int32 // a stuck discipline leaves goroutines behind: the test stops after recording that run
+
 var (
 	contractMu   sync.Mutex
 	contractSeen = map[string]contractCall{}
@@ -158,9 +161,25 @@ func freeRunV2(t *testing.T, cfg Config, rnd *rand.Rand, calls map[string]contra
 			}
 		}(holds[i])
 	}
-	for x := range d.Output() {
-		lg.add(obs{E: "R", P: x.Priority, C: uint(x.Item / 1000000), K: x.Item % 1000000})
-		work <- x.Priority
+	stuck := false
+recv:
+	for {
+		select {
+		case x, ok := <-d.Output():
+			if !ok {
+				break recv
+			}
+			lg.add(obs{E: "R", P: x.Priority, C: uint(x.Item / 1000000), K: x.Item % 1000000})
+			work <- x.Priority
+		case <-time.After(20 * time.Second): // real-clock watchdog: nothing delivered and not closed for 20 s
+			stuck = true
+			break recv
+		}
+	}
+	if stuck {
+		lg.add(obs{E: "Deadline", Note: "free-running: nothing delivered and Output() not closed for 20 s of wall time"})
+		stuckRuns.Add(1)
+		return lg.evs
 	}
 	lg.add(obs{E: "OC"})
 	close(work)
@@ -209,6 +228,9 @@ func TestFreeV2(t *testing.T) {
 			events.put(o)
 		}
 		runs++
+		if stuckRuns.Load() > 0 {
+			break
+		}
 	}
 	for _, c := range calls {
 		contract.put(c)
